@@ -72,6 +72,10 @@ claim("C13", "exploration", SIM + "; bounds via MMIO trace with offsets up to us
       "Real MMIO and PCI transports: every access either lies wholly inside the window and touches exactly those bytes, or fails with the right error and no access, no panic; multi-field reads (blk capacity, vsock CID, console size, MAC, 9P tag) against a scheduler-controlled agent that installs self-identifying configuration versions at any access: the assembled value must belong to one exposed version.",
       "Legacy MMIO has no generation register (excluded for torn reads); sampling.", "6/C13")
 
+claim("C07", "exploration", SIM + "; hostile device (wrong ids, lengths, index jumps, garbage responses/config) and scribbling device against queue, OwningQueue and all drivers",
+      "Hostile batches: the ledger of the platform layer and slice-length checks decide (no unshare/dealloc without live entry or twice, no slice beyond its buffer, no token handed out twice, calls end in Ok/Err/clean panic); scribbled batches: the ordinary scenarios keep their full functional oracles while the device overwrites descriptor table and available ring. Memory errors inside unsafe blocks that do not surface through the ledger are left to the ASan engine in the thorough tier when it is available.",
+      "Hangs of blocking calls under a device that never answers correctly are not judged; allocation-size config fields capped; sampling.", "6/C07")
+
 TODO_REASON = "check not built yet in this round (planned, see DESIGN.md section 11); no claim is made"
 ALL = ["C%02d" % i for i in range(1, 21)]
 
